@@ -56,7 +56,9 @@ CHECKS = {
              "spec constant. The continuity counters live in Rtmp2MpegtsRemuxer between two Pack calls: the RemuxOut "
              "scenarios (spec/RemuxOut.tla, every codec combination, simulated + directed) are replayed through a real Group "
              "as well and their TS layer (continuity per PID, lengths, headers, stray bytes) judged at HTTP-TS consumers "
-             "and in HLS segments; rejections of that part that are not at the TS layer are left to C06.",
+             "and in HLS segments; rejections of that part that are not at the TS layer are left to C06. A later publisher of "
+             "the name on the surviving Group (spec/Republish.tla; late joiners fed from the TS GOP cache with gop_num 0 / 1 / 2) "
+             "is replayed too, its rejections at HTTP-TS consumers and in HLS segments reported here, the others left to C02 / C16.",
         ref="6/C09"),
     "C11": dict(
         technique="TLA+ spec FlvWs (session write-unit machine + tag/WebSocket field functions) + edge-cover replay "
@@ -253,7 +255,10 @@ CHECKS = {
         note="In three of four scenarios the API steps are JSON requests to lal's own HTTP-API server on loopback (explicit 0 / -1 "
              "values; optional fields left out in a third of them where the model's value is the documented default), in the rest "
              "direct ServerManager calls. In every second scenario a failing attempt fails after the handshake instead of before it. "
-             "The auto-stop window is real time (700 ms; stalled scenarios are dropped as inconclusive). Push scenarios run in "
+             "The auto-stop window is real time (700 ms; stalled scenarios are dropped as inconclusive - a step that took long because "
+             "an attempt the model expects never came is a deviation, not a stall); a subscriber that comes and goes between two "
+             "ticks counts as present (directed scenarios P6 / R6). kick_session is driven with the attached pull session's id and "
+             "with a stale pull id (KickStale). Push scenarios run in "
              "child processes so that a panic in a goroutine lal owns is an observation (event Died). Push towards RTSP "
              "targets does not exist in lal; the push write timeout is not driven. An RTSP pull is attached by lal when the "
              "description arrives; the rest of its set-up (SETUP, PLAY) is part of the same model step (nothing is interleaved "
@@ -319,7 +324,9 @@ CHECKS = {
              "whose timer remembers the Group of arming time must violate LiveSpared) replays the edge cover of its state graph, "
              "simulated and directed behaviours with real 900 ms timers; a publisher arriving between the timer's decision and "
              "the removal is driven through a verif hook gate (directed scenarios only); a scenario that misses a real-time "
-             "bound is re-run and never judged (exit 2 if late twice).",
+             "bound is re-run and never judged (exit 2 if late twice). Every cleanup scenario runs next to a neighbour stream "
+             "of the same server that is live throughout and must stay intact (variable nbr); cleanup_mode 0 is replayed with "
+             "HLS switched on by hls.enable_https alone as well.",
         ref="6/C10"),
     "C04": dict(
         technique="TLA+ spec RtmpSession (protocol machine of rtmp.ServerSession seen from the peer; per (state, message) the set "
